@@ -1,10 +1,873 @@
-//! C08 — stub: property not yet claimed.
+//! C08 — user metadata crosses the wire intact; protocol headers cannot be forged; typed
+//! accessors never miscategorise.  Drives tonic's typed metadata API and the real client /
+//! server call machinery (client::Grpc ↔ server::Grpc in-process, no network).
+use crate::c04::{entries_tok, gen_entries, gen_value, parse_entries, render_map};
 use crate::common::*;
+use bytes::{Buf, BufMut};
+use http::{HeaderMap, HeaderValue};
+use std::sync::{Arc, Mutex};
+use tonic::codec::{Codec, DecodeBuf, Decoder, EncodeBuf, Encoder};
+use tonic::metadata::{Ascii, Binary, KeyAndValueRef, KeyRef, MetadataKey, MetadataMap, MetadataValue, ValueRef};
+use tonic::{Code, Request, Response, Status};
 
-pub fn generate(_tier: &str, _rng: &mut Rng) -> Vec<String> {
-    Vec::new()
+// ---------------------------------------------------------------------------------------------
+// raw codec
+
+#[derive(Clone, Default)]
+struct RawCodec;
+struct RawEnc;
+struct RawDec;
+impl Encoder for RawEnc {
+    type Item = Vec<u8>;
+    type Error = Status;
+    fn encode(&mut self, item: Vec<u8>, dst: &mut EncodeBuf<'_>) -> Result<(), Status> {
+        dst.put_slice(&item);
+        Ok(())
+    }
+}
+impl Decoder for RawDec {
+    type Item = Vec<u8>;
+    type Error = Status;
+    fn decode(&mut self, src: &mut DecodeBuf<'_>) -> Result<Option<Vec<u8>>, Status> {
+        let n = src.remaining();
+        Ok(Some(src.copy_to_bytes(n).to_vec()))
+    }
+}
+impl Codec for RawCodec {
+    type Encode = Vec<u8>;
+    type Decode = Vec<u8>;
+    type Encoder = RawEnc;
+    type Decoder = RawDec;
+    fn encoder(&mut self) -> RawEnc {
+        RawEnc
+    }
+    fn decoder(&mut self) -> RawDec {
+        RawDec
+    }
 }
 
-pub fn execute(_case: &str) -> String {
-    "unclaimed".into()
+// ---------------------------------------------------------------------------------------------
+// typed entries: `<n> (A|B <key> <value>)*`
+
+type Typed = Vec<(bool, Vec<u8>, Vec<u8>)>; // (is_binary, key, raw value)
+
+fn typed_tok(es: &Typed) -> String {
+    let mut out = vec![es.len().to_string()];
+    for (b, k, v) in es {
+        out.push(if *b { "B" } else { "A" }.to_string());
+        out.push(hex(k));
+        out.push(hex(v));
+    }
+    out.join(" ")
+}
+
+fn parse_typed<'a>(it: &mut impl Iterator<Item = &'a str>) -> Option<Typed> {
+    let n: usize = it.next()?.parse().ok()?;
+    let mut out = Vec::new();
+    for _ in 0..n {
+        let b = match it.next()? {
+            "A" => false,
+            "B" => true,
+            _ => return None,
+        };
+        out.push((b, unhex(it.next()?)?, unhex(it.next()?)?));
+    }
+    Some(out)
+}
+
+/// What user code does: `map.append(key.parse()?, value.try_into()?)`; rejected entries are skipped.
+fn build_typed(es: &Typed) -> MetadataMap {
+    let mut m = MetadataMap::new();
+    for (b, k, v) in es {
+        if *b {
+            if let Ok(key) = MetadataKey::<Binary>::from_bytes(k) {
+                m.append_bin(key, MetadataValue::<Binary>::from_bytes(v));
+            }
+        } else if let Ok(key) = MetadataKey::<Ascii>::from_bytes(k) {
+            if let Ok(val) = MetadataValue::<Ascii>::try_from(&v[..]) {
+                m.append(key, val);
+            }
+        }
+    }
+    m
+}
+
+fn opt_hex(o: Option<&[u8]>) -> String {
+    match o {
+        Some(b) => hex(b),
+        None => "none".into(),
+    }
+}
+
+/// `<n> (A|B <name> <bytes|!>)*`: every entry as iter() presents it, to_bytes() applied,
+/// sorted by name (values of one name stay in order).
+fn typed_view(m: &MetadataMap) -> String {
+    let mut rows: Vec<(String, String)> = Vec::new();
+    for kv in m.iter() {
+        match kv {
+            KeyAndValueRef::Ascii(k, v) => {
+                let b = v.to_bytes().map(|b| hex(&b)).unwrap_or_else(|_| "!".into());
+                rows.push((k.as_str().to_string(), format!("A {} {}", hex(k.as_str().as_bytes()), b)));
+            }
+            KeyAndValueRef::Binary(k, v) => {
+                let b = v.to_bytes().map(|b| hex(&b)).unwrap_or_else(|_| "!".into());
+                rows.push((k.as_str().to_string(), format!("B {} {}", hex(k.as_str().as_bytes()), b)));
+            }
+        }
+    }
+    rows.sort_by(|a, b| a.0.as_bytes().cmp(b.0.as_bytes()));
+    let mut out = vec![rows.len().to_string()];
+    out.extend(rows.into_iter().map(|r| r.1));
+    out.join(" ")
+}
+
+// ---------------------------------------------------------------------------------------------
+// execution
+
+pub fn execute(case: &str) -> String {
+    let mut it = case.split(' ');
+    match it.next() {
+        Some("bin") => {
+            let v = unhex(it.next().unwrap()).unwrap();
+            let mv = MetadataValue::<Binary>::from_bytes(&v);
+            let wire = mv.as_encoded_bytes().to_vec();
+            let d1 = mv.to_bytes().ok().map(|b| b.to_vec());
+            // the peer pads: the standard padded form arrives under a -bin name
+            use base64::Engine;
+            let padded = base64::engine::general_purpose::STANDARD.encode(&v);
+            let mut h = HeaderMap::new();
+            h.insert("k-bin", HeaderValue::from_str(&padded).unwrap());
+            let m = MetadataMap::from_headers(h);
+            let d2 = m.get_bin("k-bin").and_then(|x| x.to_bytes().ok()).map(|b| b.to_vec());
+            let eq = m.get_bin("k-bin").map(|x| *x == mv).unwrap_or(false);
+            format!("w {} {} {} {}", hex(&wire), d1.map(|b| hex(&b)).unwrap_or("!".into()), d2.map(|b| hex(&b)).unwrap_or("!".into()), eq as u8)
+        }
+        Some("binw") => {
+            let w = unhex(it.next().unwrap()).unwrap();
+            let hv = match HeaderValue::from_bytes(&w) {
+                Ok(v) => v,
+                Err(_) => return "not-a-header-value".into(),
+            };
+            let mut h = HeaderMap::new();
+            h.insert("k-bin", hv);
+            let m = MetadataMap::from_headers(h);
+            let x = m.get_bin("k-bin").unwrap();
+            format!("d {} {}", x.to_bytes().map(|b| hex(&b)).unwrap_or("!".into()), x.is_empty() as u8)
+        }
+        Some("bineq") => {
+            let a = unhex(it.next().unwrap()).unwrap();
+            let b = unhex(it.next().unwrap()).unwrap();
+            let (ha, hb) = match (HeaderValue::from_bytes(&a), HeaderValue::from_bytes(&b)) {
+                (Ok(x), Ok(y)) => (x, y),
+                _ => return "not-a-header-value".into(),
+            };
+            let mut h = HeaderMap::new();
+            h.append("k-bin", ha);
+            h.append("k-bin", hb);
+            let m = MetadataMap::from_headers(h);
+            let vs: Vec<&MetadataValue<Binary>> = m.get_all_bin("k-bin").iter().collect();
+            ((vs[0] == vs[1]) as u8).to_string()
+        }
+        Some("ascv") => {
+            let v = unhex(it.next().unwrap()).unwrap();
+            match MetadataValue::<Ascii>::try_from(&v[..]) {
+                Ok(mv) => format!("ok {} {}", hex(mv.as_encoded_bytes()), hex(&mv.to_bytes().unwrap())),
+                Err(_) => "err".into(),
+            }
+        }
+        Some("key") => {
+            let enc = it.next().unwrap();
+            let k = unhex(it.next().unwrap()).unwrap();
+            let r = if enc == "B" {
+                MetadataKey::<Binary>::from_bytes(&k).map(|k| k.as_str().to_string()).ok()
+            } else {
+                MetadataKey::<Ascii>::from_bytes(&k).map(|k| k.as_str().to_string()).ok()
+            };
+            match r {
+                Some(s) => format!("ok {}", hex(s.as_bytes())),
+                None => "err".into(),
+            }
+        }
+        Some("acc") => {
+            let h = match parse_entries(&mut it) {
+                Some(h) => h,
+                None => return "bad-case".into(),
+            };
+            let ks = match String::from_utf8(unhex(it.next().unwrap()).unwrap()) {
+                Ok(s) => s,
+                Err(_) => return "bad-case".into(),
+            };
+            let m = MetadataMap::from_headers(h);
+            let ks = ks.as_str();
+            let mut out = Vec::new();
+            out.push(format!("get {}", opt_hex(m.get(ks).map(|v| v.as_encoded_bytes()))));
+            out.push(format!("getbin {}", opt_hex(m.get_bin(ks).map(|v| v.as_encoded_bytes()))));
+            let all: Vec<String> = m.get_all(ks).iter().map(|v| hex(v.as_encoded_bytes())).collect();
+            out.push(format!("all {} {}", all.len(), all.join(" ")).trim_end().to_string());
+            let allb: Vec<String> = m.get_all_bin(ks).iter().map(|v| hex(v.as_encoded_bytes())).collect();
+            out.push(format!("allbin {} {}", allb.len(), allb.join(" ")).trim_end().to_string());
+            out.push(format!("has {}", m.contains_key(ks) as u8));
+            let mut m1 = m.clone();
+            let r1 = m1.remove(ks);
+            out.push(format!("rm {} {}", opt_hex(r1.as_ref().map(|v| v.as_encoded_bytes())), render_map(&m1.into_headers())));
+            let mut m2 = m.clone();
+            let r2 = m2.remove_bin(ks);
+            out.push(format!("rmbin {} {}", opt_hex(r2.as_ref().map(|v| v.as_encoded_bytes())), render_map(&m2.into_headers())));
+            // mutable accessors agree with the shared ones
+            let mut m3 = m.clone();
+            let g1 = m3.get_mut(ks).map(|v| v.as_encoded_bytes().to_vec());
+            let g2 = m3.get_bin_mut(ks).map(|v| v.as_encoded_bytes().to_vec());
+            out.push(format!("mut {} {}", opt_hex(g1.as_deref()), opt_hex(g2.as_deref())));
+            out.join(" ")
+        }
+        Some("iter") => {
+            let h = match parse_entries(&mut it) {
+                Some(h) => h,
+                None => return "bad-case".into(),
+            };
+            let m = MetadataMap::from_headers(h);
+            let mut rows: Vec<(String, String)> = Vec::new();
+            let mut names: Vec<String> = Vec::new();
+            for kv in m.iter() {
+                let (tag, k, v) = match kv {
+                    KeyAndValueRef::Ascii(k, v) => ("A", k.as_str().to_string(), v.as_encoded_bytes().to_vec()),
+                    KeyAndValueRef::Binary(k, v) => ("B", k.as_str().to_string(), v.as_encoded_bytes().to_vec()),
+                };
+                names.push(k.clone());
+                rows.push((k.clone(), format!("{} {} {}", tag, hex(k.as_bytes()), hex(&v))));
+            }
+            rows.sort_by(|a, b| a.0.as_bytes().cmp(b.0.as_bytes()));
+            let mut keys: Vec<(String, String)> = m
+                .keys()
+                .map(|k| match k {
+                    KeyRef::Ascii(k) => (k.as_str().to_string(), format!("A {}", hex(k.as_str().as_bytes()))),
+                    KeyRef::Binary(k) => (k.as_str().to_string(), format!("B {}", hex(k.as_str().as_bytes()))),
+                })
+                .collect();
+            keys.sort_by(|a, b| a.0.as_bytes().cmp(b.0.as_bytes()));
+            // values() iterates in the same order as iter(): pair each value with iter()'s name
+            let mut vals: Vec<(String, String)> = m
+                .values()
+                .zip(names.iter())
+                .map(|(v, n)| match v {
+                    ValueRef::Ascii(v) => (n.clone(), format!("A {}", hex(v.as_encoded_bytes()))),
+                    ValueRef::Binary(v) => (n.clone(), format!("B {}", hex(v.as_encoded_bytes()))),
+                })
+                .collect();
+            vals.sort_by(|a, b| a.0.as_bytes().cmp(b.0.as_bytes()));
+            // iter_mut / values_mut categorise the same way
+            let mut mm = m.clone();
+            let mut_tags: Vec<&str> = mm
+                .iter_mut()
+                .map(|kv| match kv {
+                    tonic::metadata::KeyAndMutValueRef::Ascii(_, _) => "A",
+                    tonic::metadata::KeyAndMutValueRef::Binary(_, _) => "B",
+                })
+                .collect();
+            let imm_tags: Vec<&str> = m
+                .iter()
+                .map(|kv| match kv {
+                    KeyAndValueRef::Ascii(_, _) => "A",
+                    KeyAndValueRef::Binary(_, _) => "B",
+                })
+                .collect();
+            format!(
+                "{} {} keys {} {} values {} {} mut-agrees {}",
+                rows.len(),
+                rows.iter().map(|r| r.1.clone()).collect::<Vec<_>>().join(" "),
+                keys.len(),
+                keys.iter().map(|r| r.1.clone()).collect::<Vec<_>>().join(" "),
+                vals.len(),
+                vals.iter().map(|r| r.1.clone()).collect::<Vec<_>>().join(" "),
+                (mut_tags == imm_tags) as u8
+            )
+            .split(' ')
+            .filter(|t| !t.is_empty())
+            .collect::<Vec<_>>()
+            .join(" ")
+        }
+        Some("ops") => {
+            let n: usize = it.next().unwrap().parse().unwrap();
+            let mut m = MetadataMap::new();
+            let mut out = Vec::new();
+            for _ in 0..n {
+                let op = it.next().unwrap();
+                let enc = it.next().unwrap();
+                let k = unhex(it.next().unwrap()).unwrap();
+                match op {
+                    "ins" | "app" => {
+                        let v = unhex(it.next().unwrap()).unwrap();
+                        if enc == "B" {
+                            match MetadataKey::<Binary>::from_bytes(&k) {
+                                Err(_) => out.push("keyerr".to_string()),
+                                Ok(key) => {
+                                    let val = MetadataValue::<Binary>::from_bytes(&v);
+                                    if op == "ins" {
+                                        let p = m.insert_bin(key, val);
+                                        out.push(format!("prev:{}", opt_hex(p.as_ref().map(|x| x.as_encoded_bytes()))));
+                                    } else {
+                                        out.push(format!("existed:{}", m.append_bin(key, val) as u8));
+                                    }
+                                }
+                            }
+                        } else {
+                            match MetadataKey::<Ascii>::from_bytes(&k) {
+                                Err(_) => out.push("keyerr".to_string()),
+                                Ok(key) => match MetadataValue::<Ascii>::try_from(&v[..]) {
+                                    Err(_) => out.push("valerr".to_string()),
+                                    Ok(val) => {
+                                        if op == "ins" {
+                                            let p = m.insert(key, val);
+                                            out.push(format!("prev:{}", opt_hex(p.as_ref().map(|x| x.as_encoded_bytes()))));
+                                        } else {
+                                            out.push(format!("existed:{}", m.append(key, val) as u8));
+                                        }
+                                    }
+                                },
+                            }
+                        }
+                    }
+                    "ent" => {
+                        let v = unhex(it.next().unwrap()).unwrap();
+                        let ks = match String::from_utf8(k) {
+                            Ok(s) => s,
+                            Err(_) => return "bad-case".into(),
+                        };
+                        if enc == "B" {
+                            match m.entry_bin(ks.as_str()) {
+                                Err(_) => out.push("keyerr".to_string()),
+                                Ok(e) => {
+                                    let r = e.or_insert(MetadataValue::<Binary>::from_bytes(&v));
+                                    out.push(format!("entry:{}", hex(r.as_encoded_bytes())));
+                                }
+                            }
+                        } else {
+                            match m.entry(ks.as_str()) {
+                                Err(_) => out.push("keyerr".to_string()),
+                                Ok(e) => match MetadataValue::<Ascii>::try_from(&v[..]) {
+                                    Err(_) => out.push("valerr".to_string()),
+                                    Ok(val) => {
+                                        let r = e.or_insert(val);
+                                        out.push(format!("entry:{}", hex(r.as_encoded_bytes())));
+                                    }
+                                },
+                            }
+                        }
+                    }
+                    "rm" => {
+                        let ks = match String::from_utf8(k) {
+                            Ok(s) => s,
+                            Err(_) => return "bad-case".into(),
+                        };
+                        if enc == "B" {
+                            let r = m.remove_bin(ks.as_str());
+                            out.push(format!("removed:{}", opt_hex(r.as_ref().map(|x| x.as_encoded_bytes()))));
+                        } else {
+                            let r = m.remove(ks.as_str());
+                            out.push(format!("removed:{}", opt_hex(r.as_ref().map(|x| x.as_encoded_bytes()))));
+                        }
+                    }
+                    _ => return "bad-case".into(),
+                }
+            }
+            format!("r {} map {} view {}", out.join(" "), render_map(&m.clone().into_headers()), typed_view(&m))
+        }
+        Some("hmap") => {
+            // direct tie of the ordered-multimap model to http::HeaderMap
+            let n: usize = it.next().unwrap().parse().unwrap();
+            let mut m = HeaderMap::new();
+            let mut out = Vec::new();
+            for _ in 0..n {
+                match it.next().unwrap() {
+                    "ins" => {
+                        let k = http::HeaderName::from_bytes(&unhex(it.next().unwrap()).unwrap()).unwrap();
+                        let v = HeaderValue::from_bytes(&unhex(it.next().unwrap()).unwrap()).unwrap();
+                        out.push(format!("prev:{}", opt_hex(m.insert(k, v).as_ref().map(|x| x.as_bytes()))));
+                    }
+                    "app" => {
+                        let k = http::HeaderName::from_bytes(&unhex(it.next().unwrap()).unwrap()).unwrap();
+                        let v = HeaderValue::from_bytes(&unhex(it.next().unwrap()).unwrap()).unwrap();
+                        out.push(format!("existed:{}", m.append(k, v) as u8));
+                    }
+                    "rm" => {
+                        let k = http::HeaderName::from_bytes(&unhex(it.next().unwrap()).unwrap()).unwrap();
+                        out.push(format!("removed:{}", opt_hex(m.remove(k).as_ref().map(|x| x.as_bytes()))));
+                    }
+                    "get" => {
+                        let k = String::from_utf8(unhex(it.next().unwrap()).unwrap()).unwrap();
+                        let all: Vec<String> = m.get_all(k.as_str()).iter().map(|v| hex(v.as_bytes())).collect();
+                        out.push(format!("got:{}:{}:{}", opt_hex(m.get(k.as_str()).map(|x| x.as_bytes())), m.contains_key(k.as_str()) as u8, all.join(",")));
+                    }
+                    "ext" => {
+                        let other = parse_entries(&mut it).unwrap();
+                        m.extend(other);
+                        out.push("extended".to_string());
+                    }
+                    _ => return "bad-case".into(),
+                }
+            }
+            format!("r {} map {}", out.join(" "), render_map(&m))
+        }
+        Some("e2e") => {
+            let mode = it.next().unwrap().to_string();
+            let code: i32 = it.next().unwrap().parse().unwrap();
+            let msg = String::from_utf8(unhex(it.next().unwrap()).unwrap()).unwrap();
+            let det = unhex(it.next().unwrap()).unwrap();
+            let (req, resp, stmd) = match (parse_typed(&mut it), parse_typed(&mut it), parse_typed(&mut it)) {
+                (Some(a), Some(b), Some(c)) => (a, b, c),
+                _ => return "bad-case".into(),
+            };
+            e2e(&mode, code, msg, det, req, resp, stmd)
+        }
+        _ => "bad-case".into(),
+    }
+}
+
+#[derive(Default)]
+struct Seen {
+    reqwire: Option<String>,
+    srv: Option<String>,
+    respwire: Option<String>,
+}
+
+fn e2e(mode: &str, code: i32, msg: String, det: Vec<u8>, req: Typed, resp: Typed, stmd: Typed) -> String {
+    let seen = Arc::new(Mutex::new(Seen::default()));
+    let status = Status::with_details_and_metadata(Code::from_i32(code), msg, det.into(), build_typed(&stmd));
+    let respmd = build_typed(&resp);
+    let mode_s = mode.to_string();
+    let seen_svc = seen.clone();
+    // the "network": hand the client's http request straight to the server-side call machinery
+    let svc = tower::service_fn(move |hreq: http::Request<tonic::body::Body>| {
+        let seen = seen_svc.clone();
+        let status = status.clone();
+        let respmd = respmd.clone();
+        let mode = mode_s.clone();
+        async move {
+            seen.lock().unwrap().reqwire = Some(render_map(hreq.headers()));
+            let mut server = tonic::server::Grpc::new(RawCodec);
+            let seen_h = seen.clone();
+            let hresp = if mode == "sserr" || mode == "umix" {
+                let handler = tower::service_fn(move |r: Request<Vec<u8>>| {
+                    seen_h.lock().unwrap().srv = Some(typed_view(r.metadata()));
+                    let status = status.clone();
+                    let respmd = respmd.clone();
+                    async move {
+                        let items: Vec<Result<Vec<u8>, Status>> = vec![Err(status)];
+                        let mut out = Response::new(tokio_stream::iter(items));
+                        *out.metadata_mut() = respmd;
+                        Ok::<_, Status>(out)
+                    }
+                });
+                server.server_streaming(handler, hreq).await
+            } else {
+                let handler = tower::service_fn(move |r: Request<Vec<u8>>| {
+                    seen_h.lock().unwrap().srv = Some(typed_view(r.metadata()));
+                    let status = status.clone();
+                    let respmd = respmd.clone();
+                    let mode = mode.clone();
+                    async move {
+                        if mode == "err" {
+                            Err(status)
+                        } else {
+                            let mut out = Response::new(vec![1u8, 2, 3]);
+                            *out.metadata_mut() = respmd;
+                            Ok(out)
+                        }
+                    }
+                });
+                server.unary(handler, hreq).await
+            };
+            seen.lock().unwrap().respwire = Some(render_map(hresp.headers()));
+            Ok::<_, Status>(hresp)
+        }
+    });
+    let mut client = tonic::client::Grpc::new(svc);
+    let mut request = Request::new(vec![9u8]);
+    *request.metadata_mut() = build_typed(&req);
+    let path = http::uri::PathAndQuery::from_static("/svc/Method");
+    let rt = tokio::runtime::Builder::new_current_thread().build().unwrap();
+    let client_side = rt.block_on(async move {
+        client.ready().await.unwrap();
+        if mode == "sserr" {
+            match client.server_streaming::<Vec<u8>, Vec<u8>, _>(request, path, RawCodec).await {
+                Ok(r) => {
+                    let head = typed_view(r.metadata());
+                    let mut s = r.into_inner();
+                    let tail = match s.message().await {
+                        Ok(None) => match s.trailers().await {
+                            Ok(Some(t)) => format!("end some {}", typed_view(&t)),
+                            Ok(None) => "end none".to_string(),
+                            Err(_) => "end trailers-err".to_string(),
+                        },
+                        Ok(Some(_)) => "unexpected-message".to_string(),
+                        Err(st) => format!("err {}", status_view(&st)),
+                    };
+                    format!("ok {} then {}", head, tail)
+                }
+                Err(st) => format!("err {}", status_view(&st)),
+            }
+        } else {
+            // ("umix": a unary client against a server that answers headers + error trailers, as
+            // other gRPC servers do for a unary error after headers)
+            match client.unary::<Vec<u8>, Vec<u8>, _>(request, path, RawCodec).await {
+                Ok(r) => format!("ok {}", typed_view(r.metadata())),
+                Err(st) => format!("err {}", status_view(&st)),
+            }
+        }
+    });
+    let s = seen.lock().unwrap();
+    format!(
+        "reqwire {} srv {} respwire {} client {}",
+        s.reqwire.clone().unwrap_or("none".into()),
+        s.srv.clone().unwrap_or("none".into()),
+        s.respwire.clone().unwrap_or("none".into()),
+        client_side
+    )
+}
+
+const DET_ERR_PREFIX: &str = "Error deserializing status details header: ";
+
+fn status_view(st: &Status) -> String {
+    let msg: &str = if st.message().starts_with(DET_ERR_PREFIX) { DET_ERR_PREFIX } else { st.message() };
+    format!("{} {} {} {}", st.code() as i32, hex(msg.as_bytes()), hex(st.details()), typed_view(st.metadata()))
+}
+
+// ---------------------------------------------------------------------------------------------
+// generation
+
+const RESERVED: [&str; 6] = ["te", "user-agent", "content-type", "grpc-message", "grpc-message-type", "grpc-status"];
+const BASES: [&str; 10] = ["x-a", "foo", "x-trace-id", "bin", "a.b_c~d", "x-bin-x", "k", "grpc-timeout", "x-b", "authorization"];
+
+fn gen_typed_key(rng: &mut Rng, binary: bool) -> Vec<u8> {
+    let mut k: Vec<u8> = match rng.below(12) {
+        0 | 1 => RESERVED[rng.below(6) as usize].as_bytes().to_vec(),
+        2 => b"grpc-status-details-bin".to_vec(),
+        _ => {
+            let mut s = BASES[rng.below(BASES.len() as u64) as usize].as_bytes().to_vec();
+            // mostly the right suffix for the encoding, sometimes the wrong one
+            let want_bin = if rng.chance(9, 10) { binary } else { !binary };
+            if want_bin {
+                s.extend_from_slice(b"-bin");
+            }
+            s
+        }
+    };
+    // user code may spell keys in mixed case: from_bytes normalises
+    if rng.chance(1, 6) {
+        for b in k.iter_mut() {
+            if rng.chance(1, 2) {
+                *b = b.to_ascii_uppercase();
+            }
+        }
+    }
+    if rng.chance(1, 40) {
+        k.push(b' ');
+    }
+    k
+}
+
+fn gen_bin_value(rng: &mut Rng) -> Vec<u8> {
+    let n = match rng.below(4) {
+        0 => rng.below(4),
+        1 => rng.range(4, 9),
+        2 => rng.range(0, 3),
+        _ => rng.range(9, 33),
+    } as usize;
+    match rng.below(4) {
+        0 => vec![0xff; n],
+        1 => vec![0; n],
+        _ => rng.bytes(n),
+    }
+}
+
+fn gen_typed(rng: &mut Rng, max: u64) -> Typed {
+    let n = match rng.below(6) {
+        0 => 0,
+        1 => 1,
+        _ => rng.range(0, max),
+    };
+    let mut out: Typed = Vec::new();
+    for _ in 0..n {
+        if !out.is_empty() && rng.chance(1, 3) {
+            // repeat an earlier key (same encoding)
+            let (b, k, _) = out[rng.below(out.len() as u64) as usize].clone();
+            let v = if b { gen_bin_value(rng) } else { gen_value(rng) };
+            out.push((b, k, v));
+        } else {
+            let b = rng.chance(1, 2);
+            let k = gen_typed_key(rng, b);
+            let v = if b {
+                gen_bin_value(rng)
+            } else if rng.chance(1, 12) {
+                b"bad\nvalue".to_vec()
+            } else {
+                gen_value(rng)
+            };
+            out.push((b, k, v));
+        }
+    }
+    out
+}
+
+/// typed entries for the e2e runs: names that the call machinery itself interprets
+/// (grpc-encoding, grpc-accept-encoding) are not in the vocabulary
+fn lookup_variants(rng: &mut Rng, stored: &[(Vec<u8>, Vec<u8>)]) -> Vec<u8> {
+    let mut k: Vec<u8> = if !stored.is_empty() && rng.chance(4, 5) {
+        stored[rng.below(stored.len() as u64) as usize].0.clone()
+    } else {
+        let b = rng.chance(1, 2);
+        gen_typed_key(rng, b)
+    };
+    match rng.below(8) {
+        0 => {
+            for b in k.iter_mut() {
+                *b = b.to_ascii_uppercase();
+            }
+        }
+        1 => {
+            // upper-case only (part of) the suffix
+            let n = k.len();
+            let from = n.saturating_sub(rng.range(1, 4) as usize);
+            for b in k[from..].iter_mut() {
+                *b = b.to_ascii_uppercase();
+            }
+        }
+        2 => {
+            let i = rng.below(k.len().max(1) as u64) as usize;
+            if i < k.len() {
+                k[i] = k[i].to_ascii_uppercase();
+            }
+        }
+        3 => {
+            if k.ends_with(b"-bin") {
+                k.truncate(k.len() - 4);
+            } else {
+                k.extend_from_slice(if rng.chance(1, 2) { b"-bin" } else { b"-BIN" });
+            }
+        }
+        4 => {
+            if rng.chance(1, 4) {
+                k = match rng.below(5) {
+                    0 => vec![],
+                    1 => b"a b".to_vec(),
+                    2 => "é-bin".as_bytes().to_vec(),
+                    3 => b"x-a\0".to_vec(),
+                    _ => b"-BIN".to_vec(),
+                };
+            }
+        }
+        _ => {}
+    }
+    k
+}
+
+pub fn generate(tier: &str, rng: &mut Rng) -> Vec<String> {
+    let thorough = tier == "thorough";
+    let mut out: Vec<String> = Vec::new();
+
+    // ---- corpus: 5.6 witnesses
+    let foo = vec![(b"foo-bin".to_vec(), b"AAEC".to_vec())];
+    for ks in ["foo-BIN", "FOO-BIN", "foo-Bin", "foo-bin", "Foo-bin", "foo-biN"] {
+        out.push(format!("acc {} {}", entries_tok(&foo), hex(ks.as_bytes())));
+    }
+    out.push(format!("acc {} {}", entries_tok(&[(b"foo".to_vec(), b"v".to_vec())]), hex(b"FOO")));
+    out.push(format!("ops 2 ins B {} {} rm A {}", hex(b"foo-bin"), hex(&[0, 1, 2]), hex(b"foo-BIN")));
+    out.push(format!("ops 1 ent A {} {}", hex(b"foo-BIN"), hex(b"not base64!")));
+    out.push(format!("ops 1 ent B {} {}", hex(b"FOO-BIN"), hex(&[1, 2])));
+
+    // ---- exhaustive small domains
+    // header-name character table: every byte as a one-byte key, and inside a longer key
+    for b in 0u16..=255 {
+        let b = b as u8;
+        out.push(format!("key A {}", hex(&[b])));
+        out.push(format!("key A {}", hex(&[b'x', b, b'y'])));
+        out.push(format!("key B {}", hex(&[b, b'-', b'b', b'i', b'n'])));
+        // suffix rule: every byte in each position of the suffix
+        for pos in 0..4 {
+            let mut k = b"k-bin".to_vec();
+            k[1 + pos] = b;
+            out.push(format!("key B {}", hex(&k)));
+            out.push(format!("key A {}", hex(&k)));
+        }
+        // ascii value byte table
+        out.push(format!("ascv {}", hex(&[b])));
+        out.push(format!("ascv {}", hex(&[b'a', b, b'z'])));
+        // binary: every one-byte value; every byte as a wire symbol
+        out.push(format!("bin {}", hex(&[b])));
+        for pat in [vec![b, b'A', b'A', b'A'], vec![b'A', b'A', b'A', b], vec![b'A', b'A', b], vec![b'A', b], vec![b'A', b'A', b, b'='], vec![b'A', b, b'=', b'='], vec![b]] {
+            out.push(format!("binw {}", hex(&pat)));
+        }
+    }
+    // all 16 case spellings of the suffix, looked up against a binary and an ascii entry
+    for mask in 0..16u8 {
+        let mut sfx = *b"-bin";
+        for i in 0..4 {
+            if mask & (1 << i) != 0 {
+                sfx[i] = sfx[i].to_ascii_uppercase();
+            }
+        }
+        let mut ks = b"foo".to_vec();
+        ks.extend_from_slice(&sfx);
+        out.push(format!("acc {} {}", entries_tok(&foo), hex(&ks)));
+        out.push(format!("key A {}", hex(&ks)));
+        out.push(format!("key B {}", hex(&ks)));
+        out.push(format!("ops 2 ins B {} {} rm A {}", hex(b"foo-bin"), hex(&[7]), hex(&ks)));
+    }
+    // binary values of every length 0..=40 (every length mod 3), patterns
+    for n in 0..=40usize {
+        out.push(format!("bin {}", hex(&vec![0xffu8; n])));
+        out.push(format!("bin {}", hex(&(0..n).map(|i| (i * 37 + 1) as u8).collect::<Vec<u8>>())));
+    }
+    let n2 = if thorough { 65536 } else { 2048 };
+    for i in 0..n2 {
+        let v: u16 = if thorough { i as u16 } else { rng.next() as u16 };
+        out.push(format!("bin {}", hex(&v.to_be_bytes())));
+    }
+    let n3 = if thorough { 100000 } else { 3000 };
+    for _ in 0..n3 {
+        let len = rng.range(3, 12) as usize;
+        out.push(format!("bin {}", hex(&rng.bytes(len))));
+    }
+    // arbitrary wire values under a -bin name; equality of two wire values
+    let nw = if thorough { 60000 } else { 3000 };
+    for _ in 0..nw {
+        let w: Vec<u8> = if rng.chance(1, 2) {
+            let n = rng.range(0, 10) as usize;
+            (0..n).map(|_| *rng.pick(b"ABCDwxyz0189+/==-_ ")).collect()
+        } else {
+            // a valid encoding (padded or not) with at most one small mutation
+            use base64::Engine;
+            let v = gen_bin_value(rng);
+            let mut w = if rng.chance(1, 2) {
+                base64::engine::general_purpose::STANDARD.encode(&v).into_bytes()
+            } else {
+                base64::engine::general_purpose::STANDARD_NO_PAD.encode(&v).into_bytes()
+            };
+            match rng.below(6) {
+                0 if !w.is_empty() => {
+                    let i = rng.below(w.len() as u64) as usize;
+                    w[i] = *rng.pick(b"ABQgw/+=-_ ");
+                }
+                1 if !w.is_empty() => {
+                    let i = rng.below(w.len() as u64) as usize;
+                    w.remove(i);
+                }
+                2 => w.push(b'='),
+                3 => {
+                    let i = rng.below(w.len() as u64 + 1) as usize;
+                    w.insert(i, *rng.pick(b"AQ="));
+                }
+                _ => {}
+            }
+            w
+        };
+        out.push(format!("binw {}", hex(&w)));
+        let n = rng.range(0, 6) as usize;
+        let a: Vec<u8> = (0..n).map(|_| *rng.pick(b"AQgw=")).collect();
+        let n = rng.range(0, 6) as usize;
+        let b: Vec<u8> = (0..n).map(|_| *rng.pick(b"AQgw=")).collect();
+        out.push(format!("bineq {} {}", hex(&a), hex(&b)));
+    }
+
+    // ---- accessors and iterators over arbitrary received header maps
+    let na = if thorough { 240000 } else { 5000 };
+    for i in 0..na {
+        let es = gen_entries(rng, 6);
+        if i % 3 == 0 {
+            out.push(format!("iter {}", entries_tok(&es)));
+        } else {
+            let ks = lookup_variants(rng, &es);
+            if std::str::from_utf8(&ks).is_ok() {
+                out.push(format!("acc {} {}", entries_tok(&es), hex(&ks)));
+            }
+        }
+    }
+    // ---- typed operation sequences
+    let no = if thorough { 120000 } else { 3000 };
+    for _ in 0..no {
+        let n = rng.range(1, 7);
+        let mut toks = vec![format!("ops {}", n)];
+        let mut used: Vec<Vec<u8>> = Vec::new();
+        for _ in 0..n {
+            let b = rng.chance(1, 2);
+            let k = if !used.is_empty() && rng.chance(1, 2) { used[rng.below(used.len() as u64) as usize].clone() } else { gen_typed_key(rng, b) };
+            used.push(k.clone());
+            match rng.below(6) {
+                5 => {
+                    let stored: Vec<(Vec<u8>, Vec<u8>)> = used.iter().map(|k| (k.to_ascii_lowercase(), vec![])).collect();
+                    let mut ks = lookup_variants(rng, &stored);
+                    if std::str::from_utf8(&ks).is_err() {
+                        ks = k.clone();
+                    }
+                    toks.push(format!("ent {} {} {}", if b { "B" } else { "A" }, hex(&ks), hex(&if b { gen_bin_value(rng) } else { gen_value(rng) })));
+                }
+                0 => {
+                    let stored: Vec<(Vec<u8>, Vec<u8>)> = used.iter().map(|k| (k.to_ascii_lowercase(), vec![])).collect();
+                    let ks = lookup_variants(rng, &stored);
+                    if std::str::from_utf8(&ks).is_ok() {
+                        toks.push(format!("rm {} {}", if b { "B" } else { "A" }, hex(&ks)));
+                    } else {
+                        toks.push(format!("rm {} {}", if b { "B" } else { "A" }, hex(&k)));
+                    }
+                }
+                1 | 2 => toks.push(format!("ins {} {} {}", if b { "B" } else { "A" }, hex(&k), hex(&if b { gen_bin_value(rng) } else { gen_value(rng) }))),
+                _ => toks.push(format!("app {} {} {}", if b { "B" } else { "A" }, hex(&k), hex(&if b { gen_bin_value(rng) } else { gen_value(rng) }))),
+            }
+        }
+        out.push(toks.join(" "));
+    }
+    // ---- end to end: client::Grpc ↔ server::Grpc
+    // corpus: reserved names in every position, forged protocol headers
+    for r in RESERVED {
+        let forged: Typed = vec![(false, b"x-a".to_vec(), b"1".to_vec()), (false, r.as_bytes().to_vec(), b"forged".to_vec()), (false, b"x-a".to_vec(), b"2".to_vec())];
+        for mode in ["ok", "err", "sserr", "umix"] {
+            out.push(format!("e2e {} 5 {} x {} {} {}", mode, hex(b"nope"), typed_tok(&forged), typed_tok(&forged), typed_tok(&forged)));
+        }
+    }
+    // ---- http::HeaderMap operations against the multimap model
+    let nh = if thorough { 40000 } else { 3000 };
+    for _ in 0..nh {
+        let n = rng.range(1, 8);
+        let mut toks = vec![format!("hmap {}", n)];
+        const NAMES: [&str; 5] = ["a", "b", "x-c", "te", "k-bin"];
+        for _ in 0..n {
+            let k = rng.pick(&NAMES).as_bytes().to_vec();
+            match rng.below(7) {
+                0 | 1 => toks.push(format!("ins {} {}", hex(&k), hex(&gen_value(rng)))),
+                2 | 3 => toks.push(format!("app {} {}", hex(&k), hex(&gen_value(rng)))),
+                4 => toks.push(format!("rm {}", hex(&k))),
+                5 => {
+                    let mut q = k.clone();
+                    if rng.chance(1, 2) {
+                        q = q.to_ascii_uppercase();
+                    }
+                    if rng.chance(1, 10) {
+                        q = b"not a name".to_vec();
+                    }
+                    toks.push(format!("get {}", hex(&q)))
+                }
+                _ => {
+                    let cnt = rng.range(0, 4);
+                    let mut es: Vec<(Vec<u8>, Vec<u8>)> = Vec::new();
+                    for _ in 0..cnt {
+                        es.push((rng.pick(&NAMES).as_bytes().to_vec(), gen_value(rng)));
+                    }
+                    toks.push(format!("ext {}", entries_tok(&es)));
+                }
+            }
+        }
+        out.push(toks.join(" "));
+    }
+    let ne = if thorough { 120000 } else { 2500 };
+    for _ in 0..ne {
+        let mode = *rng.pick(&["ok", "ok", "err", "sserr", "umix"]);
+        let code = if mode == "err" || mode == "umix" { rng.range(1, 16) } else { rng.below(17) };
+        let msg: &str = *rng.pick(&["", "boom", "é %", "a\nb"]);
+        let det = if rng.chance(1, 3) { gen_bin_value(rng) } else { vec![] };
+        let req = gen_typed(rng, 6);
+        let resp = gen_typed(rng, 5);
+        let stmd = gen_typed(rng, 4);
+        out.push(format!("e2e {} {} {} {} {} {} {}", mode, code, hex(msg.as_bytes()), hex(&det), typed_tok(&req), typed_tok(&resp), typed_tok(&stmd)));
+    }
+    out
 }
